@@ -7,6 +7,7 @@ DC id 0, with and without a permanent key, storage failing or not) to the model 
 `onSession` / `onCDNSession` / `saveSession`; `restore` is `restoreConnection`.
 -/
 import TdModel.Lemmas.C30
+import TdModel.Lemmas.C30Conc
 
 namespace TdModel.C30
 open TdModel
@@ -31,6 +32,33 @@ theorem saved_pairs_dc_with_its_key (s0 : St) (ns : List Notif) (d : Stored)
     refine ⟨pre, n, post, he, ?_, ?_, ?_, ?_, ?_, accepted_dc ha⟩
     · simp only [accepted, Bool.and_eq_true, decide_eq_true_eq] at ha; exact ha.1.1.1
     all_goals (subst hd; simp [storedOf, effKey]; try split <;> rfl)
+
+/-- The same under concurrency: notifications of any number of connections, each split into its
+atomic steps (DC-map update, primary-DC test, `c.session.Store`, storage load, storage save),
+interleaved in any way (`as` is any list of "a notification arrives" / "notification `i` performs
+its next step").  The storage still holds the whole data of ONE regular notification, which
+passed the primary-DC test against the primary DC it read (`t.saw`). -/
+theorem concurrent_saved_pairs_dc_with_its_key (s0 : St) (as : List Act) (d : Stored)
+    (h : (crun (cinit s0) as).st.stored = some d) :
+    s0.stored = some d ∨
+      ∃ i t, (crun (cinit s0) as).threads i = some t ∧ t.n.kind = .regular ∧
+        d.dc = t.n.cfgDC ∧
+        d.authKey = (if t.n.permKey.isZero then t.n.key else t.n.permKey).value ∧
+        d.authKeyID = (if t.n.permKey.isZero then t.n.key else t.n.permKey).id ∧
+        d.salt = t.n.salt ∧
+        (t.n.cfgDC = t.saw ∨ t.saw = 0 ∨ t.n.cfgDC = 0) := by
+  rcases (cinv_run s0.stored as (cinit s0) (cinv_init s0)).stored with h1 | ⟨i, t, ht, _, hk, he, hs⟩
+  · left; rw [← h1]; exact h
+  · right
+    rw [h] at hs
+    have hd := Option.some.inj hs
+    refine ⟨i, t, ht, hk, ?_, ?_, ?_, ?_, he⟩
+    all_goals (subst hd; simp [storedOf, effKey]; try split <;> rfl)
+
+/-- The sequential model is the interleaving in which a notification runs alone. -/
+theorem sequential_is_an_interleaving (s : St) (n : Notif) :
+    (alone s n).1 = (step s n).1 ∧ (alone s n).2.res = (step s n).2 :=
+  alone_eq_step s n
 
 /-- A client whose primary DC is `p ≠ 0` only ever stores sessions of DC `p`, whatever arrives
 from other DCs and CDN DCs in whatever order. -/
